@@ -108,6 +108,32 @@ func c10Cases(thorough bool) []c10Case {
 				out = append(out, c10Case{Kind: "triple", Flat: flat, Spec: c10Paren(names, ops3), Ops: o1.Text + " " + o2.Text + " " + o3.Text})
 			}
 		}
+		// constructs whose body extends as far as possible: the operator stays inside the body
+		o := o1.Text
+		for _, f := range [][2]string{
+			{"let $x = a in $x " + o + " b", "let $x = a in ($x " + o + " b)"},
+			{"let $x = a in b " + o + " $x", "let $x = a in (b " + o + " $x)"},
+			{"let $x = a in b " + o + " c " + o + " $x", "let $x = a in ((b " + o + " c) " + o + " $x)"},
+			{"let $x = a " + o + " b in [$x, c]", "let $x = (a " + o + " b) in [$x, c]"},
+			{"let $x = a, $y = b " + o + " c in [$x, $y]", "let $x = a, $y = (b " + o + " c) in [$x, $y]"},
+			{"[let $x = a in b " + o + " $x, c]", "[(let $x = a in (b " + o + " $x)), c]"},
+			{"let $x = a in let $y = b in c " + o + " [$x, $y][0]", "let $x = a in (let $y = b in (c " + o + " [$x, $y][0]))"},
+			{"map(&@ " + o + " c, [a, b])", "map(&(@ " + o + " c), [a, b])"},
+			{"map(&c " + o + " @, [a, b])", "map(&(c " + o + " @), [a, b])"},
+			{"[a, b][?@ " + o + " c]", "[a, b][?(@ " + o + " c)]"},
+			{"[a " + o + " b, c]", "[(a " + o + " b), c]"},
+			{"[c, a " + o + " b]", "[c, (a " + o + " b)]"},
+			{"{k: a " + o + " b, l: c}", "{k: (a " + o + " b), l: c}"},
+			{"not_null(a " + o + " b, c)", "not_null((a " + o + " b), c)"},
+			{"not_null(c, a " + o + " b)", "not_null(c, (a " + o + " b))"},
+			{"(a " + o + " b)", "a " + o + " b"},
+			{"a[?b] " + o + " c", "(a[?b]) " + o + " c"},
+			{"`1` " + o + " a " + o + " b", "(`1` " + o + " a) " + o + " b"},
+			{"a " + o + " `1` " + o + " b", "(a " + o + " `1`) " + o + " b"},
+			{"a " + o + " 'x' " + o + " b", "(a " + o + " 'x') " + o + " b"},
+		} {
+			out = append(out, c10Case{Kind: "construct", Flat: f[0], Spec: f[1], Ops: o + " in " + strings.NewReplacer("a", "", "b", "", "c", "", o, "").Replace(f[0])})
+		}
 		// unary operators against every binary operator, on both sides
 		for _, pf := range c10Prefixes[1:] {
 			out = append(out, c10Case{Kind: "unary", Flat: pf + "a " + o1.Text + " b", Spec: "(" + pf + "a) " + o1.Text + " b", Ops: pf + " " + o1.Text})
@@ -143,7 +169,7 @@ func init() {
 	core.Register(&core.Check{
 		ID:    "C10",
 		Title: "operators bind with the specified precedence and associate to the left",
-		Rule: "all 18x18 ordered pairs (and 18^3 triples) of binary operator spellings, each operand position varied over the operand shapes and unary prefixes, are evaluated flat and with the parentheses the specification's table implies, " +
+		Rule: "all 18x18 ordered pairs (and 18^3 triples) of binary operator spellings, each operand position varied over the operand shapes and unary prefixes, and every operator inside each body-extending construct (let body and bindings, expression reference, filter, multi-select, argument), are evaluated flat and with the parentheses the specification's table implies, " +
 			"on every assignment of the operand variables from the value alphabet; the two outcomes of the implementation must be equal, and the competing grouping written with parentheses must agree with the reference evaluator; " +
 			"non-trivial = a non-null, non-empty, non-error value; distinct_nontrivial counts distinct such outcomes",
 		Phases: []core.Phase{{Name: "grouping", Build: "instr", Fn: c10Run}},
@@ -237,7 +263,7 @@ func c10Run(r *core.Run) {
 		}
 		docs := small
 		switch c.Kind {
-		case "pair", "unary":
+		case "pair", "unary", "construct":
 			docs = full
 		case "triple":
 			docs = triple
